@@ -63,6 +63,7 @@ type VerifOp struct {
 	At       *VerifTimeRef `json:"at,omitempty"`
 	Second   []VerifEnt    `json:"second,omitempty"`   // race: the second writer's batch (the first one's is Ents)
 	PauseAt  string        `json:"pause_at,omitempty"` // race: hook point at which the first writer is held
+	FirstTxn bool          `json:"first_txn,omitempty"` // race: the first writer is a (single-dataset) transaction
 }
 
 type VerifCase struct {
@@ -123,6 +124,13 @@ func verifParse(store *Store, ents []VerifEnt) ([]*Entity, error) {
 	esp := NewEntityStreamParser(store)
 	res := make([]*Entity, 0)
 	err := esp.ParseStream(bytes.NewReader(verifPayload(ents)), func(e *Entity) error {
+		// the HTTP parser drops null properties; Go callers (job sinks, transforms) can store them:
+		// the marker string "@@null" stands for a nil property value written through the Go API
+		for k, v := range e.Properties {
+			if sv, ok := v.(string); ok && sv == "@@null" {
+				e.Properties[k] = nil
+			}
+		}
 		res = append(res, e)
 		return nil
 	})
@@ -459,7 +467,7 @@ func verifDoOp(h *verifHub, op VerifOp, idx int, times map[int]int64, tokens map
 		var w2acquired int32
 		var phase int32 // 0: writer 1 running alone, 1: writer 1 held, writer 2 running
 		verifhook.SetHandler(func(name, arg string) {
-			if arg != op.Ds {
+			if arg != op.Ds && !(arg == "" && strings.HasPrefix(name, "txn.")) {
 				return
 			}
 			if atomic.LoadInt32(&phase) == 0 && name == op.PauseAt {
@@ -479,7 +487,12 @@ func verifDoOp(h *verifHub, op VerifOp, idx int, times map[int]int64, tokens map
 		defer verifhook.SetHandler(nil)
 		done1 := make(chan error, 1)
 		done2 := make(chan error, 1)
-		go func() { done1 <- ds.StoreEntities(e1) }()
+		if op.FirstTxn {
+			txn := &Transaction{DatasetEntities: map[string][]*Entity{op.Ds: e1}}
+			go func() { done1 <- store.ExecuteTransaction(txn) }()
+		} else {
+			go func() { done1 <- ds.StoreEntities(e1) }()
+		}
 		select {
 		case <-held:
 		case err := <-done1:
